@@ -22,6 +22,10 @@ def run(res, only=None):
     # |got - exact| <= K(op) * u * sum|monomials| with arbitrary-precision integers (Trace_Poly.tla defines the polynomials)
     core.record_and_validate(res, "poly", [c for c in cfgs if c != "sse2-rel"], draws=3 if res.tier == "quick" else 60, module="Trace_Poly",
                              chunks=2 if res.tier == "quick" else 8, expect_kinds=("poly",))
+    # entry-wise operations (+, -, negation, abs, scalar * and /, every spelling) on random bit patterns: each entry must be the
+    # correctly rounded IEEE result (Trace_Lanes.tla / IeeeW)
+    core.record_and_validate(res, "mat", [c for c in cfgs if c in ("sse2", "scalar", "coresimd", "fma")], draws=1 if res.tier == "quick" else 30,
+                             chunks=2 if res.tier == "quick" else 8, expect_kinds=("f1", "f2"))
     res.exhaustive = res.tier == "thorough"
     res.rule = ("integer matrices: 4x4 over {0,1} (all 65536 in thorough, 1/16 stride in quick: decides the multilinear determinant), "
                 "3x3 over -1..1 (all 19683 thorough), 2x2 over -8..8 (all 83521 thorough), seeded dense -3..3 of every size, signed "
